@@ -42,6 +42,8 @@ PROJ = {
         "    return sibling.double(inner)\n\n\ndef twice(n):\n    return n * 2\n"
     ),
     "pkg/sibling.py": "def double(x):\n    return x * 2\n",
+    # a dotted import that only the archive on python_path could satisfy (stays unresolved)
+    "pkg/uses_vendor.py": "import vendored.codec\nfrom core import compute\n\n\ndef enc2(x):\n    return vendored.codec.enc(compute(x))\n",
     "ignored_dir/ig.py": "from core import compute, Shape\n\nz = compute(5)\nq = Shape(1).area()\n",
     "notes.txt": "compute and Shape are mentioned here\n",
     # coding lines Python accepts (utf-8-* / latin-1-* are normalised) although no such codec is registered
@@ -55,6 +57,7 @@ EXT = {
     "extmod.py": "from extpkg import helper\n\n\ndef ext_func(v):\n    return helper(v)\n",
     "extpkg/__init__.py": "def helper(x):\n    return x\n",
     "extpkg/tools.py": "class Tool:\n    def use(self):\n        return 1\n",
+    "vendor.zip": "PK not really an archive\n",
 }
 
 IDENTS = ["compute", "Shape", "GLOBAL", "make_shape", "area", "describe", "size", "sides", "total", "scaled", "side",
@@ -222,7 +225,8 @@ class Universe:
         kernel.reset_rope_globals()
         self.fs = simfs.SimFS(self.root, self.clock, stamp=False)
         self.prefs = {
-            "python_path": [self.ext],
+            # (an archive on the path, like pythonXY.zip on sys.path: a *file* rope cannot look into)
+            "python_path": [self.ext, os.path.join(self.ext, "vendor.zip")],
             "ignored_resources": ["*.pyc", "*~", ROPEFOLDER, "ignored_dir", "gen//*.py"],
             "automatic_soa": bool(swarm.get("soa", True)),
             "save_history": True,
@@ -342,6 +346,11 @@ def build_request(u, st, task_handle=None):
         mr = multiproject.MultiProjectRefactoring(move.create_move, [u.project2])
         dest = _res(u, st["dest"]) if st.get("dest_is_resource") else st["dest"]
         return ("multi", mr(p, res, off).get_all_changes(dest))
+    if k == "multi_move_module":
+        from rope.refactor import multiproject
+
+        mr = multiproject.MultiProjectRefactoring(move.create_move, [u.project2])
+        return ("multi", mr(p, res).get_all_changes(_res(u, st["dest"])))
     if k == "rename_module":
         r = rename.Rename(p, res, None)
         if rs is not None:
@@ -544,7 +553,7 @@ class EffectsEngine(Engine):
         kinds = (["rename"] * 6 + ["rename_module"] * 2 + ["move_global"] * 2 + ["move_module", "move_method"] +
                  ["extract_method"] * 2 + ["extract_variable"] * 2 + ["inline"] * 2 + ["change_signature"] * 2 +
                  ["introduce_parameter", "introduce_factory", "encapsulate_field", "local_to_field", "method_object",
-                  "module_to_package", "organize", "organize", "restructure", "use_function", "generate", "multi_rename", "multi_rename", "multi_move_global"])
+                  "module_to_package", "organize", "organize", "restructure", "use_function", "generate", "multi_rename", "multi_rename", "multi_move_global", "multi_move_module"])
         k = rng.choice(kinds)
         pathpool = inproj * 8 + pyfiles + ["ext:extmod.py", "ext:extpkg/__init__.py", "ext:extpkg/tools.py", "notes.txt"]
         st = {"kind": k, "path": rng.choice(pathpool)}
@@ -581,6 +590,9 @@ class EffectsEngine(Engine):
             st["dest_is_resource"] = True
             st["path"] = rng.choice(["core.py", "core.py", "pkg/sibling.py", "app.py"])
             st["ident"] = rng.choice(["compute", "make_shape", "Shape", "double", "GLOBAL", "twice"])
+        if k == "multi_move_module":
+            st["path"] = rng.choice([p for p in inproj if not p.endswith("__init__.py")] or ["core.py"])
+            st["dest"] = rng.choice(["pkg", "pkg", ""])
         if k == "move_module":
             st["path"] = rng.choice(inproj + ["pkg"])
             st["dest"] = rng.choice(["pkg", "", "pkg", "", "ignored_dir", "ext:extpkg", "pkg/util.py"])
@@ -849,12 +861,14 @@ class EffectsEngine(Engine):
                 if len(set(ann_paths)) >= 2:
                     out.nontrivial(_key(st), performed)
                     out.stats["probe_multi_resource_change"] += 1
-                if st.get("resources") is not None and k in ("rename", "rename_module"):
+                if st.get("resources") is not None and k in ("rename", "rename_module", "restructure", "use_function"):
                     # occurrences are searched only in `resources`; the file the refactoring
-                    # was invoked on is always fair game (function-local names)
+                    # was invoked on is always fair game (function-local names; the defining module
+                    # of use-function); a restructuring has no such file
                     allowed = {r.path for r in (_resources_arg(u, st) or [])}
                     try:
-                        allowed.add(_res(u, st["path"]).path)
+                        if k != "restructure":
+                            allowed.add(_res(u, st["path"]).path)
                     except Exception:
                         pass
                     edits = _edited_paths(changes) | _moved_sources(changes, allowed)
